@@ -5,15 +5,18 @@
 (* the set of tokens after which EOF completes a sentence: the oracle for "w t" for every   *)
 (* token type t (C10 viable-prefix property, C14.4 verdicts of the generated parser).       *)
 EXTENDS Integers, Sequences, FiniteSets, TLC, Json
-CONSTANTS D, L
+CONSTANTS D, L, Prefixes     \* Prefixes: viable token strings that set the rule contexts the search starts in
 GR == INSTANCE BBGrammar
 VARIABLES g, w
 vars == <<g, w>>
-Init == g = GR!GStart /\ w = <<>>
+RECURSIVE After(_, _)
+After(C, ts) == IF ts = <<>> THEN C ELSE After(GR!GStep(C, Head(ts)), Tail(ts))
+VARIABLE base                \* length of the context prefix of this behaviour
+Init == \E p \in Prefixes : g = After(GR!GStart, p) /\ g # {} /\ w = p /\ base = Len(p)
 Next == \E t \in 1..(GR!G!NTok - 1) :              \* EOF ends a string, it is not a prefix symbol
-          LET ng == GR!GStep(g, t) IN ng # {} /\ g' = ng /\ w' = Append(w, t)
-View == g
-Bound == Len(w) <= L
+          LET ng == GR!GStep(g, t) IN ng # {} /\ g' = ng /\ w' = Append(w, t) /\ UNCHANGED base
+View == <<g, base>>
+Bound == Len(w) <= base + L
 Acc(t) == GR!GStep(GR!GStep(g, t), GR!G!EOFTok) # {}
 Emit == PrintT(<<"SENT", ToJson([w |-> w, next |-> GR!NextToks(g), acc |-> {t \in GR!NextToks(g) \ {GR!G!EOFTok} : Acc(t)}])>>)
 EmitC == Bound /\ Emit
